@@ -132,8 +132,28 @@ class Source:
         if node is None or not isinstance(node, ast.Assign):
             raise FunctionMissing("%s.%s" % (cls, attr))
         m = self.module_of_class(c)
-        env = dict(m.consts); env.update({"int": int, "float": float, "bool": bool, "dict": dict, "list": list, "str": str})
-        return eval(compile(ast.Expression(node.value), m.path, "eval"), {"__builtins__": {}}, env)
+        env = dict(m.consts); env.update({"int": int, "float": float, "bool": bool, "dict": dict, "list": list, "str": str, "tuple": tuple, "set": set, "frozenset": frozenset,
+                                          "len": len, "sorted": sorted, "range": range, "abs": abs, "min": min, "max": max})
+        # other literal attributes of the same class (and its bases) may be referred to by name inside the class body
+        for k_, cn in [(x, self.class_attr_node(cls, x)[1]) for x in self._class_assign_names(cls)]:
+            if k_ == attr or k_ in env or not isinstance(cn, ast.Assign): continue
+            try: env[k_] = eval(compile(ast.Expression(cn.value), m.path, "eval"), {"__builtins__": {}}, dict(env))
+            except Exception: pass
+        try:
+            return eval(compile(ast.Expression(node.value), m.path, "eval"), {"__builtins__": {}}, env)
+        except Exception as e:
+            raise FunctionMissing("%s.%s cannot be evaluated statically (%s: %s)" % (cls, attr, type(e).__name__, e))
+
+    def _class_assign_names(self, cls):
+        out = []
+        for c in self.mro(cls) if hasattr(self, "mro") else [cls]:
+            cn = None
+            for m in self.modules.values():
+                if c in m.classes: cn = m.classes[c]
+            if cn is None: continue
+            for st in cn.body:
+                if isinstance(st, ast.Assign) and len(st.targets) == 1 and isinstance(st.targets[0], ast.Name): out.append(st.targets[0].id)
+        return out
 
     def digest(self):
         return {k: v.sha256 for k, v in self.modules.items()}
@@ -141,6 +161,10 @@ class Source:
 
 def is_property(fn):
     return any(isinstance(d, ast.Name) and d.id == "property" for d in fn.decorator_list)
+
+
+def is_staticmethod(fn):
+    return any(isinstance(d, ast.Name) and d.id == "staticmethod" for d in fn.decorator_list)
 
 
 def is_classmethod(fn):
